@@ -178,6 +178,10 @@ class _BucketBase(_ArithmeticMixin, _Base):
 
     def _range(self, min=_marker, max=_marker,
                excludemin=False, excludemax=False):
+        if not self._keys:
+            # nothing to search (the C implementation does not look at
+            # the bounds of an empty bucket either)
+            return 0, 0
         if min is _marker or min is None:
             start = 0
             if excludemin:
@@ -1042,6 +1046,8 @@ class _Tree(_ArithmeticMixin, _Base):
         return iter(self.keys())
 
     def minKey(self, min=_marker):
+        if not self._data:
+            raise ValueError('empty tree')
         if min is _marker or min is None:
             bucket = self._firstbucket
         else:
